@@ -369,6 +369,44 @@ func (c *Check) genesisBindingSetter(rule string) {
 					}
 				}
 			}
+			// the rebuilt records are those of the imported binding: each is keyed by (and holds) the binding's own fields
+			bi := -1
+			for i, pr := range g.Params {
+				if namedStruct(pr.Type()) == "ServiceBinding" {
+					bi = i
+				}
+			}
+			if bi >= 0 {
+				B := atom(fmt.Sprintf("P%d", bi)).withType(g.Params[bi].Type())
+				fo, fs, fp := field("ServiceBinding", "Owner", B).String(), field("ServiceBinding", "ServiceName", B).String(), field("ServiceBinding", "Provider", B).String()
+				want := map[string][]string{"0x02": {fs, fp}, "0x03": {fo, fs, fp}, "0x04": {fp}, "0x05": {fo, fp}, "0x06": {fs, fp}}
+				var wrong []string
+				for _, pb := range c.P.PathsOf(g) {
+					if !pb.OK() {
+						continue
+					}
+					for _, e := range c.pathEffects(g, pb) {
+						if e.Kind != "store" || e.Op != "Set" || want[e.Family] == nil {
+							continue
+						}
+						var got []string
+						for _, k := range keyArgs(e) {
+							got = append(got, stripConv(k).String())
+						}
+						if strings.Join(got, " ") != strings.Join(want[e.Family], " ") {
+							wrong = append(wrong, fmt.Sprintf("%s is keyed by %s", e.Family, fmtTerms(keyArgs(e))))
+						}
+						if e.Family == "0x04" && e.Val != nil && !(e.Val.ContainsOp(".ServiceBinding.Owner") && !e.Val.ContainsOp(".ServiceBinding.Provider")) {
+							wrong = append(wrong, "the owner recorded for the provider is "+shortTerm(e.Val))
+						}
+					}
+				}
+				wrong = uniq(sortStrings(wrong))
+				c.req(len(wrong) == 0, rule, unitConstruct(g, "per-binding-keys"), g.Body.Pos(),
+					"the records rebuilt for an imported binding are keyed by its own service name, provider and owner (owner map: provider → owner)"+condStr(len(wrong) > 0, ": "+strings.Join(wrong, "; ")))
+			} else {
+				c.undecided(rule, unitConstruct(g, "per-binding-keys"), g.Body.Pos(), "the per-binding import takes no binding record")
+			}
 			lacking = uniq(sortStrings(lacking))
 			c.req(n > 0 && len(lacking) == 0, rule, unitConstruct(g, "per-binding-writes"), g.Body.Pos(),
 				"every committed path of the per-binding import writes the record, the owner index, both owner maps and the parsed pricing"+condStr(len(lacking) > 0, "; some path lacks families "+strings.Join(lacking, ",")))
